@@ -73,6 +73,9 @@ def op1? (j : Json) : Option (Except String Op1) := do
     match pyIndices n sl with
     | none => some (.error "value")
     | some (a, b, s) => some (.ok ⟨n, (rangeLen a b s).toNat, sliceMatrix a s, sliceEval a s⟩)
+  | "fsum" =>
+    let n ← fNat? j "n"
+    some (.ok ⟨n, n, fsumMatrix n, fsumEval n⟩)
   | "sum" =>
     let n ← fNat? j "n"
     some (.ok ⟨n, 1, fun _ _ => 1.0, fun x _ => sumTo n x⟩)
